@@ -36,6 +36,10 @@ func ErrSeeds() []*Grammar {
 		"S: Stmts ; Stmts: Stmt | Stmts Stmt ; Stmt: a semi | X semi ; X: b ; Stmt: error semi",
 		"S: a A b ; A: a ; B: b ; A: error ; S: B",
 		"S: A | S A ; A: a b ; S: error b",
+		// a completed production with error in its look-ahead next to an item with the dot in front of error (an
+		// error-column conflict that -a resolves in favour of the shift)
+		"S: L B ; L: a | a L | error ; B: b | error",
+		"S: L T ; L: s | s L ; T: error x | y",
 	}
 	var out []*Grammar
 	for _, s := range specs {
